@@ -765,4 +765,66 @@ example : ∃ (c : EpochCursor.Cfg) (cursor : Int) (e : BitVec 64), c.rtl = Gen.
   ⟨{ genesis := 0, epochSec := 86400, rtl := 3600, updMin := 0, maxBlocks := 0, epochSec_pos := by decide }, 0, 172800#64,
     by decide⟩
 
+/-- C14: `accountPool.filterBlocksToCommit` on the list of block types (the slice of block pointers projected to the one
+    field the function reads) is the hand model's loop `Pool.filterGo` -/
+theorem filterBlocksToCommit_translation_refines_model (blocks : List (BitVec 64)) (hl : blocks.length < two63) :
+    Translated.filterBlocksToCommit blocks
+      = .ok (Pool.filterGo (fun b : BitVec 64 => Pool.isContractSend b.toNat) Gen.MaxAccountBlocksInMomentum blocks [] []) := by
+  simp only [two63] at hl
+  have hl' : blocks.length < 2 ^ 63 := by omega
+  have hlen : (Go.len blocks).toInt = (blocks.length : Int) := by
+    unfold Go.len; rw [toInt_eq, BitVec.toNat_ofNat]
+    have : blocks.length % 2 ^ 64 = blocks.length := Nat.mod_eq_of_lt (by omega)
+    rw [this]; split <;> omega
+  have hM : Translated.chain_MaxAccountBlocksInMomentum_init.toInt = (Gen.MaxAccountBlocksInMomentum : Int) := by decide
+  unfold Translated.filterBlocksToCommit
+  have g1 : decide ((Go.len blocks).toInt < 0) = false := by rw [hlen]; simp
+  have g2 : decide (Translated.chain_MaxAccountBlocksInMomentum_init.toInt < 0) = false := by decide
+  simp only [g1, g2, Bool.false_eq_true, if_false]
+  rw [upS_len_eq blocks hl']
+  have key : ∀ body : BitVec 64 → LL → Step LL (List (BitVec 64)),
+      (∀ (k : Nat) (b : BitVec 64) (batch tc : List (BitVec 64)), blocks[k]? = some b → batch.length + tc.length ≤ k →
+        body (0#64 + BitVec.ofNat 64 k) (batch, tc) =
+          if (fun b : BitVec 64 => Pool.isContractSend b.toNat) b then .next (batch ++ [b], tc)
+          else if tc.length + (batch ++ [b]).length > Gen.MaxAccountBlocksInMomentum then .brk (batch ++ [b], tc)
+          else .next ([], tc ++ (batch ++ [b]))) →
+      loopThen (Go.forIn (idxFrom 0 blocks.length) ([], []) body) (fun s__ => Res.ok s__.snd)
+        = .ok (Pool.filterGo (fun b : BitVec 64 => Pool.isContractSend b.toNat) Gen.MaxAccountBlocksInMomentum blocks [] []) := by
+    intro body hb
+    obtain ⟨b', h | h⟩ := filterLoop_spec _ _ blocks body hb blocks [] [] [] (by simp) (by simp) <;>
+      (simp only [List.length_nil] at h; rw [h]; rfl)
+  apply key
+  intro k b batch tc hk hinv
+  have hkl : k < blocks.length := by
+    rcases Nat.lt_or_ge k blocks.length with h | h
+    · exact h
+    · rw [List.getElem?_eq_none h] at hk; cases hk
+  have hi : (0#64 + BitVec.ofNat 64 k).toNat = k := by
+    simp only [BitVec.zero_add, BitVec.toNat_ofNat]; exact Nat.mod_eq_of_lt (by omega)
+  have hii : (0#64 + BitVec.ofNat 64 k).toInt = (k : Int) := by rw [toInt_eq, hi]; split <;> omega
+  have hoob : oobS blocks (0#64 + BitVec.ofNat 64 k) = false := by
+    simp only [oobS, hi, hii, Bool.or_eq_false_iff, decide_eq_false_iff_not]; omega
+  have hat : atW blocks (0#64 + BitVec.ofNat 64 k) = b := by
+    simp only [atW, hi, List.getD, hk, Option.getD_some]
+  have hsum : (Go.len tc + Go.len (batch ++ [b])).toInt = ((tc.length + (batch ++ [b]).length : Nat) : Int) := by
+    have hle : tc.length + (batch ++ [b]).length < 2 ^ 63 := by simp; omega
+    have hn : (Go.len tc + Go.len (batch ++ [b])).toNat = tc.length + (batch ++ [b]).length := by
+      simp only [Go.len, BitVec.toNat_add, BitVec.toNat_ofNat]; omega
+    rw [toInt_eq, hn]; split <;> omega
+  have hcs : (b != 4#64) = !(Pool.isContractSend b.toNat) := by
+    unfold Pool.isContractSend
+    simp only [Gen.BlockTypeContractSend, bne, Bool.not_eq_eq_eq_not, Bool.not_not]
+    rw [Bool.eq_iff_iff]; simp only [beq_iff_eq, ← BitVec.toNat_inj]; rfl
+  simp only [hoob, hat, hsum, hM, hcs, Bool.false_eq_true, if_false, decide_eq_true_eq]
+  by_cases h1 : Pool.isContractSend b.toNat = true
+  · simp [h1]
+  · simp only [h1, Bool.not_false, if_true, Bool.false_eq_true, if_false]
+    by_cases h2 : tc.length + (batch ++ [b]).length > Gen.MaxAccountBlocksInMomentum
+    · have h2' : ((tc.length + (batch ++ [b]).length : Nat) : Int) > (Gen.MaxAccountBlocksInMomentum : Int) := by omega
+      simp only [h2, h2', if_true]
+    · have h2' : ¬ ((tc.length + (batch ++ [b]).length : Nat) : Int) > (Gen.MaxAccountBlocksInMomentum : Int) := by omega
+      simp only [h2, h2', if_false]
+
+example : Translated.filterBlocksToCommit [2#64, 4#64, 4#64, 3#64, 4#64] = .ok [2#64, 4#64, 4#64, 3#64] := by decide
+
 end ZV.Translated
